@@ -411,14 +411,8 @@ impl PeerHandler {
         &mut self,
         request: Request,
     ) -> Result<bool, Box<dyn std::error::Error>> {
-        match &self.piece_tx {
-            Some(piece_tx) => {
-                if piece_tx.piece_index != request.piece_index() {
-                    self.trigger_cmd_recv_request(&request).await?;
-                }
-            }
-            None => self.trigger_cmd_recv_request(&request).await?,
-        };
+        // Always ask the manager: only it knows whether the peer is still unchoked
+        self.trigger_cmd_recv_request(&request).await?;
 
         match &self.piece_tx {
             Some(piece_tx) => {
@@ -640,7 +634,15 @@ impl PeerHandler {
             RequestCmd::LoadAndSendPiece {
                 piece_index,
                 piece_hash,
-            } => self.load_piece_from_file(piece_index, &piece_hash).await?,
+            } => {
+                let loaded = match &self.piece_tx {
+                    Some(piece_tx) => piece_tx.piece_index == piece_index,
+                    None => false,
+                };
+                if !loaded {
+                    self.load_piece_from_file(piece_index, &piece_hash).await?
+                }
+            }
             RequestCmd::Ignore => self.piece_tx = None,
         };
 
